@@ -97,7 +97,9 @@ Schema(c) ==
                                    Fld("by_name", TMap(TList(I32, Unset, Unset))),
                                    Fld("holes", TList(TNull(Str), Unset, Unset)),
                                    Fld("cells", TList(TList(TRef("Entry"), Unset, Unset), Unset, Unset)),
-                           Fld("label", TRef("Label")), Fld("ra", TNull(TRef("RA"))), Fld("rb", TList(TRef("RB"), Unset, Unset))>>, <<>>, FALSE)) @@
+                           Fld("label", TRef("Label")), Fld("ra", TNull(TRef("RA"))),
+                           Fld("trees", TMap(TRef("Tree"))),          \* a map of structs with enumerated subtypes
+                           Fld("rb", TList(TRef("RB"), Unset, Unset))>>, <<>>, FALSE)) @@
     (IF c.ring THEN ("Yb" :> DStruct(NB(c), "", <<Fld("z", TNull(TRef("Zc")))>>, <<>>, FALSE)) @@
                     ("Zc" :> DStruct("nc", "", <<Fld("e", TNull(TRef("Upload")))>>, <<>>, FALSE))
      ELSE <<>>)
@@ -122,6 +124,8 @@ RoutesOf(c) == <<
     Route("na", "put", 3, TRef("Choice"), TRef("Choice"), "none", <<>>, "rpc"),
     Route("na", "get_thing", 1, TVoid, TRef("Tree"), IF c.dep = "late" THEN "none" ELSE "plain", <<>>, "download"),
     Route("nc", "ping", 1, TVoid, TVoid, "none", <<>>, "rpc"),
+    \* a union argument that lives in another namespace than the route
+    Route("nc", "paint", 1, TRef("Color"), TVoid, "none", <<>>, "rpc"),
     \* (in the ring model nc must import na only, or nb <-> nc would be a direct mutual import)
     Route("nc", "whoami", 1, TVoid, IF c.ring THEN TVoid ELSE TRef("Entry"), "none", <<>>, "rpc") >>
 Namespaces(c) == {"na", NB(c), "nc", "nd", "aa", "nf"}
